@@ -17,4 +17,3 @@ move=> Bu u1 /andP[r0 r1]; rewrite /ell_contains /ell_point addrK mulKmx //.
 by rewrite nrm2_scale u1 mulr1 expr_lt1.
 Qed.
 End Ell.
-Print Assumptions C07_ell_sample.
